@@ -276,9 +276,16 @@ class Roles:
                             if role:
                                 changed |= self._set(callee, ptermk, role)
                 # the block slots read inside this function
-                for k, role in self.block.items():
-                    changed |= self._set(q, ("item", ("glob", MOD + "_cal_params"), k), role) if any(
-                        x == ("item", ("glob", MOD + "_cal_params"), k) for ev in s.events for v in ev.data.values() if isinstance(v, tuple) for x in walk(v)) else False
+                if self.block:
+                    mentioned = set()
+                    pool = [v for ev in s.events for v in ev.data.values() if isinstance(v, tuple)] + [g_ for ev in s.events for g_, _ in ev.ctx.guards] + [s.ret]
+                    for v in pool:
+                        for x in walk(v):
+                            if x[0] == "item" and x[1] == ("glob", MOD + "_cal_params"):
+                                mentioned.add(x[2])
+                    for k, role in self.block.items():
+                        if k in mentioned:
+                            changed |= self._set(q, ("item", ("glob", MOD + "_cal_params"), k), role)
                 if f.cls:
                     for attr, role in self.attr_roles.get(f.cls, {}).items():
                         self.roles.setdefault(q, {}).setdefault(("attr", ("param", "self"), attr), role)
@@ -888,6 +895,11 @@ class NN:
                 cur = strip(ce[3])
             elif head(cur) == "comp" and cur[1] in ("list", "gen") and head(strip(cur[2])) == "tuple" and len(strip(cur[2])[1]) == 3:
                 info["comp"] = cur
+                info["order"].append("comp")
+                return info
+            elif head(cur) == "after" and isinstance(cur[2], str):
+                # a list filled by append() in a loop: its insertion sites are the pipeline's source
+                info["accum"] = cur
                 info["order"].append("comp")
                 return info
             else:
